@@ -1,9 +1,237 @@
-"""End-to-end half of C04 (filled in once the cluster simulator exists)."""
+"""End-to-end half of C04: every frame the simulated brokers receive is parsed by the strict reference parser
+(simkafka does that for each frame and keeps the ones that fail), and the version-selection clause is judged against
+generated ApiVersions tables and brokers that do not answer version discovery."""
+import random
+
+from ..core import sig
+from ..engines.world import World
+from ..traps import Traps
+
+REACH = {"e2e_frames_parsed": {"quick": 20000, "thorough": 500000},
+         "version_scenarios": {"quick": 150, "thorough": 4000},
+         "discovery_failed_scenarios": {"quick": 40, "thorough": 1000},
+         "produce_requests_versioned": {"quick": 300, "thorough": 8000},
+         "fetch_requests_versioned": {"quick": 300, "thorough": 8000}}
+
+IMPLEMENTED = {0: (0, 1, 2), 1: (0, 1, 2)}  # versions whose layout afkak can write and whose reply it can read
 
 
 def cases(tier, seed):
-    return []
+    out = []
+    n = {"quick": (20, 20, 12, 200), "thorough": (500, 500, 300, 5000)}[tier]
+    for i in range(n[0]):
+        out.append(dict(kind="e2e_prod", seed=seed * 1000003 + 410000 + i))
+    for i in range(n[1]):
+        out.append(dict(kind="e2e_cons", seed=seed * 1000003 + 420000 + i))
+    for i in range(n[2]):
+        out.append(dict(kind="e2e_grp", seed=seed * 1000003 + 430000 + i))
+    for i in range(n[3]):
+        out.append(dict(kind="versions", seed=seed * 1000003 + 440000 + i, idx=i))
+    return out
+
+
+def frames_ok(res, cluster, where):
+    hist = [e for e in cluster.history if "req" in e]
+    res.hit("e2e_frames_parsed", len(hist))
+    for b in cluster.bad_frames:
+        res.violate("e2e/frame-does-not-parse/%s" % b["error"].split(":")[0][:60].replace(" ", "-"),
+                    "a request received by broker %d in a %s scenario does not parse under the reference grammar: %s"
+                    % (b["broker"], where, b["error"]), frame=b["frame"][:160].hex())
+    census = {}
+    for e in hist:
+        census[(e["api"], e["version"])] = census.get((e["api"], e["version"]), 0) + 1
+    res.ob("e2e_frames_conform", len(hist))
+    return census
 
 
 def run(spec, res):
+    k = spec["kind"]
+    if k == "e2e_prod":
+        from ..engines import prod
+        rng = random.Random(spec["seed"])
+        sc = prod.gen_scenario(spec["seed"], rng.choice(("general", "batch", "nofault", "mixed")))
+        tr = prod.run_scenario(sc)
+        census = frames_ok(res, tr.cluster, "producer")
+    elif k == "e2e_cons":
+        from ..engines import cons
+        rng = random.Random(spec["seed"])
+        sc = cons.gen_scenario(spec["seed"], rng.choice(("stream", "commit", "retry", "clean")))
+        tr = cons.run_scenario(sc)
+        census = frames_ok(res, tr.cluster, "consumer")
+    elif k == "e2e_grp":
+        from ..engines import grp
+        sc = grp.gen_scenario(spec["seed"], "rebalance")
+        tr = grp.run_scenario(sc)
+        census = frames_ok(res, tr.cluster, "group")
+    else:
+        return run_versions(spec, res)
+    res.n_sub += 1
+    res.sigs.add(sig(k, tuple(sorted(census.items()))))
+    if res.sample is None:
+        res.sample = dict(kind=k, frames_by_api_and_version={"%s v%d" % a: n for a, n in sorted(census.items())})
+    return res
+
+
+def gen_table(rng, idx):
+    """(mode, table).  Tables satisfy the statement's premise: produce and fetch advertise min 0 and max >= 2."""
+    pmax = rng.choice((2, 2, 3, 5, 7, 9))
+    fmax = rng.choice((2, 2, 3, 4, 11))
+    dense = [(0, 0, pmax), (1, 0, fmax), (2, 0, rng.choice((0, 1, 5))), (3, 0, rng.choice((0, 2, 8))),
+             (8, 0, rng.choice((1, 2, 7))), (9, 0, rng.choice((1, 3))), (10, 0, rng.choice((0, 2))), (11, 0, 2),
+             (12, 0, 1), (13, 0, 1), (14, 0, 1), (18, 0, rng.choice((0, 1, 2)))]
+    cls = ("table", "full", "table", "unordered", "sparse", "close", "silent", "error35")[idx % 8]
+    if cls == "table":
+        return "table", dense
+    if cls == "full":
+        full = [(k, 0, rng.choice((0, 1, 2, 3))) for k in range(0, 19)]
+        full[0] = (0, 0, pmax)
+        full[1] = (1, 0, fmax)
+        return "table", full
+    if cls == "unordered":
+        t = list(dense)
+        rng.shuffle(t)
+        return "table-unordered", t
+    if cls == "sparse":
+        t = [(18, 0, rng.choice((0, 1, 2))), (0, 0, pmax), (1, 0, fmax)]
+        rng.shuffle(t)
+        return "table-sparse", t
+    return cls, dense
+
+
+def run_versions(spec, res):
+    from afkak import OFFSET_EARLIEST, Consumer, Producer
+    from afkak.common import OffsetRequest
+    rng = random.Random(spec["seed"])
+    mode, table = gen_table(rng, spec.get("idx", 0))
+    nb = rng.choice((1, 2))
+    # a broker that hangs up on ApiVersions is redialled at once: without latency that loop would not advance time
+    w = World(spec["seed"], brokers=range(1, nb + 1), latency=(0.01 if mode == "close" else rng.choice((0.0, 0.002))))
+    cl = w.cluster
+    cl.version_table = list(table)
+    for b in cl.brokers.values():
+        b.api_versions = mode if mode in ("close", "silent", "error35") else "table"
+    topic = "vt"
+    P = rng.choice((1, 2))
+    cl.add_topic(topic, {p: rng.randint(1, nb) for p in range(P)})
+    delivered = {p: [] for p in range(P)}
+    sends = []
+    codec = rng.choice((None, None, 1))
+    who_first = rng.choice(("producer", "consumer", "client"))
+    with Traps():
+        client = w.client(timeout=1000, enable_protocol_version_discovery=True)
+        producer = Producer(client, req_acks=1, max_req_attempts=4, retry_interval=0.1, codec=codec)
+        consumers = []
+
+        def mk(p):
+            def proc(c, msgs):
+                for m in msgs:
+                    delivered[p].append((m.offset, m.message.value, m.message.key))
+            return proc
+
+        def start_consumers():
+            for p in range(P):
+                c = Consumer(client, topic, p, mk(p), fetch_max_wait_time=100, request_retry_init_delay=0.1,
+                             request_retry_max_delay=0.5)
+                consumers.append(c)
+                c.start(OFFSET_EARLIEST).addErrback(lambda f: None)
+
+        def send(i):
+            val = b"ver-%d-" % i + bytes(rng.randrange(256) for _ in range(rng.choice((0, 3, 40))))
+            key = rng.choice((None, b"", b"k%d" % i))
+            rec = dict(i=i, value=val, key=key, fires=[])
+            sends.append(rec)
+            kw = dict(key=key) if key is not None else {}
+            producer.send_messages(topic, msgs=[val], **kw).addBoth(rec["fires"].append)
+        if who_first == "consumer":
+            start_consumers()
+        elif who_first == "client":
+            client.send_offset_request([OffsetRequest(topic, 0, -1, 1)]).addErrback(lambda f: None)
+        n = rng.choice((1, 3, 6))
+        for i in range(n):
+            w.clock.labelled(rng.choice((0.0, 0.0, 0.05, 0.5)), "act.send", send, i)
+        if who_first != "consumer":
+            w.clock.labelled(rng.choice((0.0, 0.3)), "act.consume", start_consumers)
+        w.run(until=w.clock.seconds() + 12.0)
+        for c in consumers:
+            try:
+                c.stop()
+            except Exception:
+                pass
+        try:
+            producer.stop()
+        except Exception:
+            pass
+        client.close().addErrback(lambda f: None)
+        w.run(until=w.clock.seconds() + 1.0)
+    res.n_sub += 1
+    res.hit("version_scenarios")
+    failed_disc = mode in ("close", "silent", "error35")
+    if failed_disc:
+        res.hit("discovery_failed_scenarios")
+    census = frames_ok(res, cl, "version-discovery")
+    adv = {}
+    for (k, lo, hi) in table:
+        adv[k] = (lo, hi)
+    hist = [e for e in cl.history if "req" in e]
+    first_av = next((i for i, e in enumerate(hist) if e["api"] == "ApiVersions"), None)
+    for i, e in enumerate(hist):
+        if e["api"] not in ("Produce", "Fetch"):
+            continue
+        key = 0 if e["api"] == "Produce" else 1
+        res.hit("produce_requests_versioned" if key == 0 else "fetch_requests_versioned")
+        v = e["version"]
+        if first_av is None or first_av > i:
+            res.violate("versions/request-before-discovery", "%s v%d was sent before any ApiVersions request although "
+                        "discovery is enabled" % (e["api"], v))
+        if failed_disc:
+            if v != 0:
+                res.violate("versions/no-fallback-to-v0/%s" % mode, "discovery failed (%s) but %s v%d was sent"
+                            % (mode, e["api"], v))
+            res.ob("falls_back_to_v0")
+        else:
+            lo, hi = adv[key]
+            if not (lo <= v <= hi):
+                res.violate("versions/version-not-advertised", "%s v%d sent; the broker advertised %d..%d (%s)"
+                            % (e["api"], v, lo, hi, mode), table=table)
+            if v not in IMPLEMENTED[key]:
+                res.violate("versions/version-not-implemented", "%s v%d sent; afkak implements %r" % (e["api"], v,
+                                                                                                    IMPLEMENTED[key]))
+            res.ob("version_advertised_and_implemented")
+    # the matching decoder was used: results are right
+    logs = {p: [(o, v_, k_) for (o, k_, v_, ts, mg, bid) in cl.log(topic, p).all_records()] for p in range(P)}
+    in_log = {}
+    for p in range(P):
+        for (o, v_, k_) in logs[p]:
+            in_log.setdefault(v_, []).append((p, o, k_))
+    for s in sends:
+        if not s["fires"]:
+            res.violate("versions/send-never-completed", "a send did not complete (%s)" % mode, table=table)
+            continue
+        r0 = s["fires"][0]
+        if hasattr(r0, "value") and hasattr(r0, "check"):
+            res.violate("versions/send-failed", "a send failed with %s although the broker is healthy (%s)"
+                        % (r0.type.__name__, mode), table=table)
+            continue
+        where = in_log.get(s["value"])
+        if not where:
+            res.violate("versions/acknowledged-send-not-in-log", "send %r acknowledged but not in the log" % s["value"])
+            continue
+        off = getattr(r0, "offset", None)
+        if off is not None and not any(off <= o for (_p, o, _k) in where):
+            res.violate("versions/produce-reply-misdecoded", "the produce result says offset %r, the record is at %r"
+                        % (off, where))
+        if where[0][2] != s["key"]:
+            res.violate("versions/key-null-vs-empty", "sent key %r, the log holds %r" % (s["key"], where[0][2]))
+        res.ob("produce_reply_decoded")
+    for p in range(P):
+        got = [(o, v_) for (o, v_, k_) in delivered[p]]
+        want = [(o, v_) for (o, v_, k_) in logs[p]]
+        if got != want:
+            res.violate("versions/fetch-reply-misdecoded-or-incomplete", "partition %d: delivered %r, log %r (%s)"
+                        % (p, got[:4], want[:4], mode), table=table)
+        res.ob("fetch_reply_decoded")
+    res.sigs.add(sig("versions", mode, tuple(table), who_first, codec, P, n))
+    if res.sample is None or res.sample.get("kind") != "versions":
+        res.sample = dict(kind="versions", mode=mode, table=table[:4], first=who_first,
+                          frames_by_api_and_version={"%s v%d" % a: c for a, c in sorted(census.items())})
     return res
